@@ -53,8 +53,11 @@ CHECKS["C15"] = ("pure", "exploration",
     "application makes (AddEscrow, ReclaimEscrow, debonding completion, rewards with commission, slashing via the real SlashEscrow on a mock state), with pool states "
     "from empty to 2^128 scale and fully slashed pools. After every action exact math/big inequalities are checked: minted shares and paid amounts never exceed the "
     "pro-rata value, nobody else's redeemable value or the share price drops except by slashing, no value is created, bookkeeping sums match. Plus round-trip and "
-    "split/merge relations. Layer 2 (through the multiplexer: debonding paid exactly once at the right epoch) is exercised by the chain-engine checks C05/C10.",
-    "The application-level clauses (exactly-once payout at the first epoch transition at or after the end epoch) are observed through the chain engine, not here. "
+    "split/merge relations. Layer 2 (TestC15Debonding, through the real ABCI multiplexer): generated chains with genesis debonding delegations whose end epoch lies "
+    "before/at/after the base epoch (skipped end epochs), many delegators reclaiming from shared escrow accounts, slashing and epoch transitions; a reference ledger "
+    "of debonding delegations plus the block's payout events decide: not paid before the end epoch, removed at the first transition at or after it, every payout "
+    "consumes exactly one matured ledger entry (exactly once), each amount equals floor(shares*balance/totalShares) of the debonding pool at that payout.",
+    "Epochs advance by one inside a generated chain (production beacon); skipped end epochs come from the genesis document. "
     "A pool with balance but no shares gives the balance to the first depositor (counted, not asserted).",
     "DESIGN.md 4/C15")
 
